@@ -2,6 +2,7 @@ SPECIFICATION MCSpec
 CONSTANTS Dropped = {}
  WriteOrder = "reversed"
  MaxN = 3
+ FortVers = {}
  Thresholds = "default"
 INVARIANTS ShareConsistency
 CHECK_DEADLOCK FALSE
